@@ -199,6 +199,12 @@ def rows():
         'copy.deepcopy': lambda a: copy.deepcopy(a), 'np.array(a)': lambda a: np.array(a.values),
         'np.repeat': lambda a: np.repeat(a.values, 2), 'np.tile': lambda a: np.tile(a.values, 2),
         'np.nextafter': lambda a: np.nextafter(a.values, np.inf), 'np.stack': lambda a: np.stack((a.values, a.values), axis=1),
+        'sc.sort': lambda a: sc.sort(a, 'x'), 'sc.sort(key=)': lambda a: sc.sort(a, key=a),
+        'sc.round': lambda a: sc.round(a), 'sc.cumsum': lambda a: sc.cumsum(a),
+        'sc.index(x.value)': lambda a: sc.index(int(a['x', 0].value)),
+        'da.group(label)': lambda a: sc.DataArray(a, coords={'g': sc.array(dims=['x'], values=[0, 0, 1, 1], unit=None)}).group('g').bins.constituents['data'].data,
+        'da.group(label).bins.size()': lambda a: sc.DataArray(a, coords={'g': sc.array(dims=['x'], values=[0, 0, 1, 1], unit=None)}).group('g').bins.size().data,
+        'x % y': lambda a: a % one,
     }
     for k, f in fresh.items():
         row(k, 'fresh', f, f)
@@ -210,6 +216,21 @@ def rows():
     for k, f in fresh_v.items():
         row(k, 'fresh', f, f, mk=v3)
     # --- containers
+    def shallow_da_own_dicts():
+        da = sc.DataArray(x(), coords={'x': x()}, masks={'m': x() > sc.scalar(2.0, unit='angstrom')})
+        c = da.copy(deep=False)
+        c.coords['extra'] = x()
+        del c.masks['m']
+        return ('extra' not in da.coords and 'm' in da.masks and bool(shares(c.coords['x'], da.coords['x']))
+                and bool(shares(c.data, da.data)))
+
+    def setattr_stores():
+        @dataclasses.dataclass(frozen=True)
+        class Fz:
+            f: object = None
+        o, v = Fz(), x()
+        object.__setattr__(o, 'f', v)
+        return o.f is v
     d = {'a': x()}
     cont = [
         ('dict(d) shares values', 'shallow', dict(d)['a'] is d['a'] and dict(d) is not d),
@@ -218,6 +239,8 @@ def rows():
         ('{**d} shares values', 'shallow', {**d}['a'] is d['a']),
         ('d.items()/values() hand out the stored values', 'view', next(iter(d.values())) is d['a']),
         ('x.value of a 0-d float variable is a copy', 'fresh-scalar', isinstance(sc.scalar(1.0).value, float)),
+        ('da.copy(deep=False) has its own coords / masks dicts over the same variables', 'shallow', shallow_da_own_dicts()),
+        ('object.__setattr__(ob, name, v) stores v itself', 'view', setattr_stores()),
     ]
     for name, cls, okv in cont:
         out.append({'name': name, 'cls': cls, 'when_true': bool(okv), 'when_false': None, 'container': True})
@@ -306,8 +329,8 @@ def peak_data(rng, variant):
     return da, est, f, unit, dt
 
 
-def builders(variant, layout, seed):
-    """-> list of (label, callable, args, kwargs, options)"""
+def builders(variant, layout, seed, sections=None):
+    """-> list of (label, callable, args, kwargs, options); sections: only these families (None = all)"""
     out = []
     rng = Rng(seed)
 
@@ -323,6 +346,8 @@ def builders(variant, layout, seed):
     from scippneutron.tof import chopper_cascade as CC
 
     def guard(name, f):
+        if sections is not None and name not in sections:
+            return
         try:
             f()
         except Exception as ex:      # noqa: BLE001
@@ -386,33 +411,115 @@ def builders(variant, layout, seed):
     guard('chopper cascade', sec_chopper_cascade)
     def sec_disk_chopper_and_filtering():
         from scippneutron import chopper as CH
-        def nexus_chopper():
-            return sc.DataGroup({
-                'type': CH.DiskChopperType.single, 'position': sc.vector([0.0, 0.0, 2.0], unit=du if du == 'm' else 'm'),
-                'rotation_speed': sc.scalar(np.array(14.0).astype(dtf)[()], unit='Hz', dtype=dtf),
-                'beam_position': sc.scalar(45.0, unit='deg'), 'phase': sc.scalar(-20.0, unit='deg'),
-                'slit_edges': sc.array(dims=['slit'], values=[0.0, 60.0, 124.0, 126.0], unit=['deg', 'rad'][0]),
-                'slit_height': sc.scalar(0.4, unit='m'), 'radius': sc.scalar(0.5, unit='m')})
-        add('chopper.DiskChopper.from_nexus', CH.DiskChopper.from_nexus, nexus_chopper())
-        mk_dc = lambda: CH.DiskChopper.from_nexus(nexus_chopper())
+        # ---- slit edges: classes of VALUES (angles are periodic: any begin <= end is valid, inside one turn or not),
+        #      x unit (deg / rad) x dtype (float64: the internal dtype conversions are no-ops; float32 / int64: they copy)
+        #      x layout (1-d, or 2-d edges for the '2d' layout).  Values in deg.
+        au = ['deg', 'rad'][variant['unit']]
+        adt = variant['dtype']
+        r_ = Rng(seed + 7)
+        n_rand = int(r_.r.integers(1, 5))
+        cuts = np.sort(r_.uniform(0.0, 360.0, 2 * n_rand))
+        turns = r_.r.integers(-2, 3, n_rand) * 360.0
+        EDGE_CLASSES = {
+            'inside-one-turn': ([0.0, 124.0], [60.0, 126.0]),
+            'across-tdc': ([-20.0, 100.0], [15.0, 130.0]),              # a slit over top-dead-centre: negative begin
+            'beyond-one-turn': ([350.0, 380.0], [370.0, 400.0]),
+            'negative': ([-300.0, -100.0], [-200.0, -50.0]),
+            'single-wide-slit': ([-90.0], [180.0]),
+            'random-turn-offsets': (list(cuts[0::2] + turns), list(cuts[1::2] + turns)),
+        }
+
+        def edge_var(vals):
+            v = np.asarray(vals, dtype='float64')
+            if au == 'rad':
+                v = np.deg2rad(v)
+            if adt == 'int64':
+                v = np.round(v)
+            if layout == '2d' and len(v) % 2 == 0 and len(v) >= 2:
+                return sc.array(dims=['disk', 'slit'], values=v.reshape(2, -1).astype(adt), unit=au, dtype=adt)
+            return sc.array(dims=['slit'], values=v.astype(adt), unit=au, dtype=adt)
+
+        def ang(v):       # beam position / phase: scalars in the edge unit (always floating point)
+            return sc.scalar(float(np.deg2rad(v)) if au == 'rad' else float(v), unit=au, dtype=dtf)
+
+        freq_sign = -1.0 if (seed % 2) else 1.0      # clockwise / anticlockwise
+        freq_mult = [1.0, 2.0, 0.5][seed % 3]         # chopper at 1x, 2x, 1/2 of the pulse frequency
+
+        def dc_args(ec):
+            b, e = EDGE_CLASSES[ec]
+            return {'axle_position': sc.vector([0.0, 0.0, 2.0], unit=du),
+                    'frequency': sc.scalar(np.array(freq_sign * 14.0 * freq_mult).astype(dtf)[()], unit='Hz', dtype=dtf),
+                    'beam_position': ang(45.0), 'phase': ang(-20.0),
+                    'slit_begin': edge_var(b), 'slit_end': edge_var(e),
+                    'slit_height': sc.scalar(np.array(0.4).astype(dtf)[()], unit='m', dtype=dtf),
+                    'radius': sc.scalar(np.array(0.5).astype(dtf)[()], unit='m', dtype=dtf)}
+
+        def nexus_chopper(ec='inside-one-turn', split=False):
+            b, e = EDGE_CLASSES[ec]
+            a = dc_args(ec)
+            g = {'type': CH.DiskChopperType.single, 'position': a['axle_position'], 'rotation_speed': a['frequency'],
+                 'beam_position': a['beam_position'], 'phase': a['phase'], 'slit_height': a['slit_height'], 'radius': a['radius']}
+            if split or a['slit_begin'].ndim != 1:
+                g['slit_begin'], g['slit_end'] = a['slit_begin'], a['slit_end']
+            else:
+                inter = np.empty(2 * len(b))
+                inter[0::2], inter[1::2] = b, e
+                if au == 'rad':
+                    inter = np.deg2rad(inter)
+                if adt == 'int64':
+                    inter = np.round(inter)
+                g['slit_edges'] = sc.array(dims=['slit'], values=inter.astype(adt), unit=au, dtype=adt)
+            return sc.DataGroup(g)
+
         pf = lambda: sc.scalar(np.array(14.0).astype(dtf)[()], unit='Hz', dtype=dtf)
-        for m in ('time_offset_open', 'time_offset_close', 'open_duration'):
-            add(f'chopper.DiskChopper.{m}', getattr(CH.DiskChopper, m), mk_dc(), pulse_frequency=pf())
-        add('chopper.DiskChopper.time_offset_angle_at_beam', CH.DiskChopper.time_offset_angle_at_beam, mk_dc(),
-            angle=sc.array(dims=['a'], values=[10.0, 50.0], unit='deg'))
+        for ec in EDGE_CLASSES:
+            tag = f'[{ec}]'
+            add('chopper.DiskChopper' + tag, CH.DiskChopper, **dc_args(ec))
+            add('chopper.DiskChopper.from_nexus' + tag, CH.DiskChopper.from_nexus, nexus_chopper(ec))
+            add('chopper.DiskChopper.from_nexus[slit_begin/slit_end]' + tag, CH.DiskChopper.from_nexus, nexus_chopper(ec, split=True))
+            mk_dc = lambda ec=ec: CH.DiskChopper(**dc_args(ec))
+            try:
+                mk_dc()
+            except Exception as ex:      # noqa: BLE001  (e.g. rounded integer edges in rad that collide)
+                out.append(('chopper.DiskChopper.<methods>' + tag, None, [], {}, {'skip': f'constructor refuses: {type(ex).__name__}: {str(ex)[:80]}'}))
+                continue
+            for m in ('time_offset_open', 'time_offset_close', 'open_duration'):
+                add(f'chopper.DiskChopper.{m}' + tag, getattr(CH.DiskChopper, m), mk_dc(), pulse_frequency=pf())
+            add('chopper.DiskChopper.time_offset_angle_at_beam' + tag, CH.DiskChopper.time_offset_angle_at_beam, mk_dc(),
+                angle=edge_var(EDGE_CLASSES[ec][0]), n_repetitions=1 + seed % 2)
+            add('chopper.DiskChopper.__eq__' + tag, CH.DiskChopper.__eq__, mk_dc(), mk_dc())
+            add('tof.chopper_cascade.Chopper.from_disk_chopper' + tag, CC.Chopper.from_disk_chopper, mk_dc(), pf(), 2)
+        mk_dc = lambda: CH.DiskChopper(**dc_args('across-tdc'))
         for prop in ('n_slits', 'angular_frequency', 'is_clockwise'):
             add(f'chopper.DiskChopper.{prop}', getattr(CH.DiskChopper, prop).fget, mk_dc())
         add('chopper.DiskChopper.make_svg', CH.DiskChopper.make_svg, mk_dc())
-        add('tof.chopper_cascade.Chopper.from_disk_chopper', CC.Chopper.from_disk_chopper, mk_dc(), pf(), 2)
-        def freq_log():
+        add('chopper.DiskChopper._repr_html_', CH.DiskChopper._repr_html_, mk_dc(), _opts={'norepeat': True})   # fresh element ids per call
+        # NeXus layout with NXlog groups
+        def nx_raw():
+            log = lambda v, u: sc.DataGroup({'value': sc.DataArray(sc.array(dims=['time'], values=[v], unit=u, dtype=dtf),
+                                                                   coords={'time': sc.array(dims=['time'], values=[0.0], unit='s')})})
+            g = dict(nexus_chopper('across-tdc').items())
+            g['rotation_speed'] = log(14.0, 'Hz')
+            g['phase'] = log(-20.0, 'deg')
+            g['top_dead_center'] = sc.DataGroup({'time': sc.array(dims=['time'], values=[1.0, 2.0], unit='s')})
+            g['type'] = 'Chopper type single'
+            return sc.DataGroup(g)
+        add('chopper.extract_chopper_from_nexus', CH.extract_chopper_from_nexus, nx_raw())
+        add('chopper.DiskChopper.from_nexus[extracted]', CH.DiskChopper.from_nexus, CH.extract_chopper_from_nexus(nx_raw()))
+
+        def freq_log(tdt='float64', tunit='s'):
             v = np.array([14.0, 14.0, 14.01, 14.0, 20.0, 28.0, 28.0, 28.02, 28.0, 28.0, 5.0])
             return sc.DataArray(sc.array(dims=['time'], values=v.astype(dtf), unit='Hz', dtype=dtf),
-                                coords={'time': sc.arange('time', len(v), unit='s', dtype='float64')})
+                                coords={'time': sc.arange('time', len(v), unit=tunit, dtype=tdt)})
         add('chopper.find_plateaus', CH.find_plateaus, freq_log(), atol=sc.scalar(0.1, unit='Hz/s'), min_n_points=3)
+        add('chopper.find_plateaus[index variable, int coord]', CH.find_plateaus, freq_log('int64', 'ms'),
+            atol=sc.scalar(np.array(0.1).astype(dtf)[()], unit='Hz/ms', dtype=dtf), min_n_points=sc.index(3), plateau_dim='p')
         mk_plat = lambda: CH.find_plateaus(freq_log(), atol=sc.scalar(0.1, unit='Hz/s'), min_n_points=3)
         add('chopper.collapse_plateaus', CH.collapse_plateaus, mk_plat())
-        add('chopper.filter_in_phase', CH.filter_in_phase, CH.collapse_plateaus(mk_plat()), reference=sc.scalar(14.0, unit='Hz'),
-            rtol=sc.scalar(0.01))
+        add('chopper.collapse_plateaus[int coord]', CH.collapse_plateaus,
+            CH.find_plateaus(freq_log('int64', 'ms'), atol=sc.scalar(0.1, unit='Hz/ms'), min_n_points=3))
+        add('chopper.filter_in_phase', CH.filter_in_phase, CH.collapse_plateaus(mk_plat()),
+            reference=sc.scalar(np.array(14.0).astype(dtf)[()], unit='Hz', dtype=dtf), rtol=sc.scalar(np.array(0.01).astype(dtf)[()], dtype=dtf))
 
     guard('disk chopper and filtering', sec_disk_chopper_and_filtering)
     def sec_peaks():
@@ -663,6 +770,10 @@ def slots_of(args, kwargs):
         for k, v in (d or {}).items():
             if isinstance(v, (sc.Variable, sc.DataArray)):
                 out.append((v, ('attr', holder, k)))
+        if isinstance(holder, (dict, sc.DataGroup)):
+            for k, v in holder.items():
+                if isinstance(v, (sc.Variable, sc.DataArray)):
+                    out.append((v, ('item', holder, k)))
     return out
 
 
@@ -680,7 +791,15 @@ def align(fn, args, kwargs):
         changed = False
         for obj, unit, dtype in t.seen:
             for v, where in slots:
-                if v is obj:
+                # the converted object is the argument itself or a VIEW of it (slice / flatten / transpose / data of a
+                # data array): then the conversion is a no-op exactly when the argument has that unit / dtype
+                same = v is obj
+                if not same and isinstance(obj, (sc.Variable, sc.DataArray)) and isinstance(v, (sc.Variable, sc.DataArray)):
+                    try:
+                        same = bool(shares(v, obj)) and obj.bins is None and v.bins is None
+                    except Exception:      # noqa: BLE001
+                        same = False
+                if same:
                     try:
                         kw = {}
                         if unit is not None and sc.Unit(str(unit)) != v.unit:
@@ -696,6 +815,8 @@ def align(fn, args, kwargs):
                         args[where[1]] = new
                     elif where[0] == 'kw':
                         kwargs[where[1]] = new
+                    elif where[0] == 'item':
+                        where[1][where[2]] = new
                     else:
                         object.__setattr__(where[1], where[2], new)
                     done.append(f'{where[0]}:{where[-1]} -> {kw}')
@@ -710,14 +831,15 @@ def run_calls(payload):
     only = payload.get('only')
     for combo in payload['combos']:
         variant, layout, seed = combo['variant'], combo['layout'], combo['seed']
+        sections = payload.get('sections')
         try:
-            b1 = builders(variant, layout, seed)
-            b2 = builders(variant, layout, seed)
+            b1 = builders(variant, layout, seed, sections)
+            b2 = builders(variant, layout, seed, sections)
         except Exception as ex:      # noqa: BLE001
             out.append({'label': '<builders>', 'status': 'harness-error', 'error': traceback.format_exc()[-800:], 'combo': combo})
             continue
-        b3 = builders(variant, layout, seed) if payload.get('aligned', True) else None
-        b4 = builders(variant, layout, seed) if b3 is not None else None
+        b3 = builders(variant, layout, seed, sections) if payload.get('aligned', True) else None
+        b4 = builders(variant, layout, seed, sections) if b3 is not None else None
         for j, ((label, fn, args, kwargs, opts), (_, _, args2, _, _)) in enumerate(zip(b1, b2)):
             if only and label not in only and label + '[aligned]' not in only:
                 continue
